@@ -138,6 +138,24 @@ def main(argv):
         pass
     sys.setrecursionlimit(int(task.get("recursion_limit", 1000)))
     ctx = Ctx(task["prop"], task["unit"], set(task.get("known_keys", [])), set(task.get("muted", [])))
+    cov = None
+    if os.environ.get("VERIF_COVERAGE"):
+        # self-audit only (tools/coverage_audit.sh): which repository lines do the generated cases reach?
+        import coverage
+
+        from . import REPO_SRC
+
+        cov = coverage.Coverage(data_file=os.environ["VERIF_COVERAGE"], data_suffix=True, source=[os.path.join(REPO_SRC, "multidecoder")])
+        cov.start()
+    try:
+        return _run(task, ctx, out_path)
+    finally:
+        if cov is not None:
+            cov.stop()
+            cov.save()
+
+
+def _run(task, ctx, out_path):
     try:
         mod = importlib.import_module("vf.props." + task["prop"].lower())
         if task["unit"] == "__regress__":
